@@ -46,8 +46,11 @@ func vhPlanNoop() {
 	n := vParam("N", 2)
 	d := &vDB{}
 	arts, hashes := []int{1, 0, 2}, []int{1, 2, 0}
-	if vParam("RICH", 0) == 0 {
+	switch vParam("RICH", 0) {
+	case 0:
 		arts, hashes = []int{1, 0, 2}, []int{1, 2}
+	case 2:
+		arts, hashes = []int{1, 0}, []int{1, 2} // for deeper forests
 	}
 	fs := vForest(d, n, arts, hashes)
 	strat := vInt("strat", 1, 15) // at least one flag, no generate-all
